@@ -67,6 +67,7 @@ def make_jobs(prop, tier, seed):
     # a Queue parks its callers in Lock.wait() on Signals and wakes them through `closed` / tills: the Signal layer (M1) and the
     # Lock's hand-over (M3) are part of every Queue property
     jobs.extend(plug.m1_layer_jobs(prop, tier, seed))
+    jobs.extend(plug.m3_layer_jobs(prop, tier, seed))
     if prop == "C07":
         for j in range(1 if tier == "quick" else 4):
             jobs.append({"kind": "explore", "long_idle": True, "prop": prop, "seed": seed * 22801763 + j, "scenarios": 1, "schedules": 1})
@@ -88,13 +89,18 @@ def run_job(job):
     r = plug.m1_layer_replay(job)
     if r is not None:
         return r
+    if job["kind"] == "layer3":
+        return plug.run_m3_layer(job)
+    r = plug.m3_layer_replay(job)
+    if r is not None:
+        return r
     if job["kind"] == "pbound":
         return plug.pbound_job(MODEL, gen_small, job)
     return plug.std_job(MODEL, gen, job)
 
 
 def shrink(prop, failure):
-    if (failure.get("replay") or {}).get("model") == "m1-layer":
+    if (failure.get("replay") or {}).get("model") in ("m1-layer", "m3-layer"):
         return failure
     return plug.std_shrink(MODEL, prop, failure)
 
